@@ -193,6 +193,40 @@ CHECKS = {
              "consistent and releasable, not equal to the pre-state."),
 }
 
+# what later rounds added to each check (kept apart from the original description above)
+ADDED = {
+    "C01": "Later additions: schemas for caller-owned variables (CFG_SIMPLE_*), for declared sections inside a free-form section, "
+           "for consecutive list assignments; recorded executions use all three parse entry points.",
+    "C02": "Later additions: stress instances for included files that end inside a comment or string while the including text goes on, "
+           "and for strings on the growth steps of the scanner's scratch buffer (values compared).",
+    "C03": "Later additions: ${...} bodies, slashes next to comment markers, octal forms with a closing quote, strings on the scratch-buffer growth steps.",
+    "C05": "Later additions: caller-owned variables (a second context gets its own variables), a titled single section, the ends of the range of long, "
+           "every ordered pair of scanner-relevant bytes (CR LF, backslash newline, ...), states reached by parsing.",
+    "C06": "Later additions: the rejected texts again after an empty text parsed through a different entry point (file -> buffer, buffer -> stream, "
+           "stream -> file); the scanner-level line counter; include trees.",
+    "C07": "Later additions: API histories and titled-section replacement on a context with a search path; the include model's and the file-name "
+           "resolution model's balance aspects.",
+    "C08": "Later additions: predicted diagnostic lines, every history also through cfg_parse_fp, an assignment that stops before its first value "
+           "followed by an append, and re-entrant parsing (MC_Nest: a function callback parses into the second context while the first parse runs).",
+    "C09": "Later additions: caller-owned variables, titles differing in case, list calls on sections, bare radix prefixes.",
+    "C10": "Later additions: the same on caller-owned variables; set-from-text through the parser.",
+    "C11": "Later additions: titles containing '=', a backslash before an ordinary character in quoted qualifiers, emptied / junk qualifiers, 2^32 indices.",
+    "C12": "Later additions: deprecation notices are counted by the model (exact number of diagnostics of an accepted text), deprecated options at top "
+           "level, path-like undeclared names, free-form sections, annotation support together with ignore-unknown.",
+    "C13": "Later additions: include declared inside a section, relative names through the search path, multi sections with parsed list defaults inside "
+           "included files, and re-entrant parsing from inside an included file (MC_Nest).",
+    "C14": "Later additions: callbacks on deprecated / dropped options; veto and rewrite by the pre-set validation callback on int, string and float "
+           "options; re-entrant parsing (a nested text calls a function while the outer call's arguments are pending).",
+    "C15": "Later additions: annotations next to long quoted values and on lists; the annotation round trip (print -> parse -> compare) with annotation "
+           "texts touching the comment brackets.",
+    "C16": "Later additions: three instances created at once and removal, a titled instance filled and opened again, a single section removed and re-opened.",
+    "C17": "Later additions: the working directory is part of the model (a relative name that exists there but in no search directory).",
+    "C18": "Later additions: workloads with free-form sections, bulk set on an annotated option, list setters with several elements.",
+    "C19": "Later additions: caller-owned variables, a print callback on an unset scalar, filters installed before the sections exist, starting indentation 9 and 12.",
+}
+for _k, _v in ADDED.items():
+    CHECKS[_k]["text"] += " " + _v
+
 PENDING = {
 }
 
